@@ -428,8 +428,10 @@ def ref_list(t, off, items, writes, top=False):
     """C11 6.7.9p17-22: initialise the object (t at bit offset off) from a brace-enclosed list.  Returns the element count
     when t is an array of unknown size."""
     if t.kind == 'scalar':
+        if len(items) > 1 and all(not d and v[0] == 'e' for d, v in items):
+            raise RefError('too many initializers for a scalar')       # 6.7.9p2: no value for an object outside the entity being initialised
         if len(items) != 1 or items[0][0] or items[0][1][0] != 'e':
-            raise Unjudged('braces around a scalar with designators / nested braces / several items')
+            raise Unjudged('braces around a scalar with designators / nested braces')
         writes.append((off, t.size * 8 if not hasattr(t, 'bfwidth') else t.bfwidth, items[0][1], t)); return
     P = None; ended = False; maxidx = 0
     def limit(tt):
@@ -461,6 +463,7 @@ def ref_list(t, off, items, writes, top=False):
             # earlier initialisers inside this subobject: gcc/clang re-initialise the whole subobject, cproc overlays; C11 is read both ways
             if any(so <= w[0] < so + sw for w in writes): raise Unjudged('braced re-initialisation of a subobject with earlier initialisers')
             if st.kind == 'scalar':
+                if len(val[1]) > 1 and all(not d and v[0] == 'e' for d, v in val[1]): raise RefError('too many initializers for a scalar')
                 if len(val[1]) != 1 or val[1][0][0] or val[1][0][1][0] != 'e': raise Unjudged('odd braces around scalar')
                 writes.append((so, sw, val[1][0][1], st))
             else:
@@ -606,6 +609,7 @@ def gen_inits(t, rnd, depth=0):
                 else: items.append(((), ('e', lab())))
         return items
     if t.kind == 'scalar':
+        if rnd.random() < 0.08: return ('list', [((), ('e', lab())) for _ in range(rnd.choice([2, 2, 3]))])       # invalid: several values for one scalar
         return rnd.choice([('e', lab()), ('list', [((), ('e', lab()))])])
     r = rnd.random()
     if r > 0.97: return ('e', lab())          # invalid: unbraced scalar for an aggregate
@@ -699,11 +703,21 @@ def run_parseinit(prog, fn, T, tn, item):
         built = {}
         def build(t):
             if id(t) in built: return built[id(t)]
-            if t.kind == 'scalar': r_ = w.t(t.name)
+            if t.kind == 'scalar' and getattr(t, 'vm', False):
+                va = it.call('mkarraytype', [w.t('int'), 0, 0]); va.obj.f[('prop',)] = (it.load(va.obj, ('prop',)) or 0) | ev(prog, 'PROPVM'); va.obj.f[('incomplete',)] = 0
+                r_ = w.mkptr(va); r_.obj.f[('prop',)] = it.load(r_.obj, ('prop',)) | ev(prog, 'PROPVM')      # int (*)[n]
+            elif t.kind == 'scalar': r_ = w.t(t.name)
             elif t.kind == 'array':
                 r_ = it.call('mkarraytype', [build(t.base), 0, t.n or 0])
                 if t.n is None:
                     r_.obj.f[('incomplete',)] = 1; r_.obj.f[('size',)] = 0
+                if getattr(t, 'vla', False):        # `T a[n]`: what declarator() builds for a non-constant length
+                    r_.obj.f[('size',)] = 0; r_.obj.f[('incomplete',)] = 0
+                    r_.obj.f[('prop',)] = (it.load(r_.obj, ('prop',)) or 0) | ev(prog, 'PROPVM')
+                    r_.obj.f[('u', 'array', 'length')] = w.mkexpr('EXPRIDENT', w.t('int'))
+                elif getattr(t.base, 'vm', False) or getattr(t.base, 'vla', False):
+                    r_.obj.f[('prop',)] = (it.load(r_.obj, ('prop',)) or 0) | ev(prog, 'PROPVM')
+                    if getattr(t.base, 'vla', False): r_.obj.f[('size',)] = 0
             else:
                 r_ = w.mkstruct(size=t.size, align=t.align, kind='TYPESTRUCT' if t.kind == 'struct' else 'TYPEUNION')
                 r_.obj.f[('incomplete',)] = 0
@@ -1011,6 +1025,34 @@ def rule_addrconst(chk, prog, tier):
     r.exhaustive = True
 
 
+# ------------------------------------------------------------------ C07.f which objects may have an initialiser
+
+def rule_initialisable(chk, prog, tier):
+    r = chk.rule('C07.f', 'the entity to be initialised is an array of unknown size or a complete object type that is not a variable-length array: a (non-empty) initialiser for a VLA, an array of VLAs or an incomplete structure is diagnosed '
+                 '(it would otherwise be stored into an object whose size the initialiser code takes to be 0), arrays of unknown size - also of variably modified element type - take their size from the list', floor=8,
+                 oracle='C11 6.7.9p3')
+    fn = prog.require_func('parseinit', 'init.c')
+    I = scalar('int')
+    vla = array(I, 1); vla.vla = True; vla.name = 'int[n]'
+    vla2 = array(vla, 2); vla2.name = 'int[2][n]'
+    pvm = Ty('scalar', name='long', size=8, align=8, ischar=False); pvm.vm = True        # int (*)[n]: a pointer, variably modified
+    apvm = array(pvm, None); apvm.name = 'int(*[])[n]'
+    apvm3 = array(pvm, 3); apvm3.name = 'int(*[3])[n]'
+    T = {'int[n]': vla, 'int[2][n]': vla2, 'int(*[])[n]': apvm, 'int(*[3])[n]': apvm3, 'int[]': array(I, None), 'int[3]': array(I, 3)}
+    e = lambda k: ((), ('e', 'v%d' % k))
+    CASES = [('int[n]', ('list', [e(0)]), False), ('int[n]', ('list', [e(0), e(1)]), False), ('int[2][n]', ('list', [e(0)]), False), ('int(*[])[n]', ('list', [e(0), e(1)]), 16), ('int(*[3])[n]', ('list', [e(0)]), 24),
+             ('int[]', ('list', [e(0), e(1), e(2)]), 12), ('int[3]', ('list', [e(0)]), 12), ('int[]', ('list', []), False)]
+    for tn, item, want in CASES:
+        outcome, val = run_parseinit(prog, fn, T, tn, item)
+        key = 'initialisable:%s=%s' % (tn, text_of(item))
+        if outcome == 'unsupported': raise AnalysisBroken('%s: %s' % (key, val))
+        if want is False:
+            r.instance(outcome == 'terminal:error', key, 'init.c:parseinit', 'must be diagnosed; cproc: %s %s' % (outcome, val if outcome != 'return' else 'accepts it: %s' % (val,)))
+        else:
+            r.instance(outcome == 'return' and val[1] == want, key, 'init.c:parseinit', 'valid, object size %d; cproc: %s %s' % (want, outcome, val))
+    r.exhaustive = False
+
+
 def run(chk, tier):
     prog = facts.programs()['cproc-qbe']
     chk.guard('C07.a', lambda: rule_parseinit(chk, prog, tier))
@@ -1019,5 +1061,6 @@ def run(chk, tier):
     chk.guard('C07.d', lambda: c02.rule_initadd(chk, prog, tier, 'C07.d', bits=True))
     chk.guard('C07.c', lambda: rule_funcinit(chk, prog, tier))
     chk.guard('C07.e', lambda: rule_addrconst(chk, prog, tier))
+    chk.guard('C07.f', lambda: rule_initialisable(chk, prog, tier))
     from props import c16
     chk.guard('C16.c', lambda: c16.rule_stringkey(chk, prog, tier))      # string literal objects: distinct literals get distinct storage
